@@ -230,6 +230,53 @@ def perturb_numpy(M, rec, rng, g, desc, pars, points):
                                 rec.seen("influence_classes", classify(desc, ok, ik))
 
 
+def closed_link_has_no_influence(M, rec, rng, g, desc, pars):
+    """A road closed on the live network (edge removed from the graph the network hands out) is no longer
+    a link of the network: whatever is left in its variables must not influence any next state."""
+    NE, CE = drive.engines(M)
+    built = D.build(M, desc, D.random_ops(desc, rng))
+    kw = drive.step_pars(pars)
+    _, v0 = g.values(desc, "interior", allow_inf=False)
+    try:
+        built.net.step(init_conditions=drive.np_init(built, v0, "vec1"), engine=NE(), **kw)
+    except Exception:
+        return
+    closed_ids = set(built.links)
+    d2, what = W.close_link_inplace(M, built, desc, rng)
+    if not what:
+        return
+    closed_id = (closed_ids - set(built.links)).pop()
+    _, vals = g.values(d2, "interior", allow_inf=False)
+    if R.is_singular(d2, vals):
+        return
+    try:
+        built.net.step(init_conditions=drive.np_init(built, vals, "vec1"), engine=NE(), **kw)
+        base = drive.read_next(built)
+    except Exception as e:
+        rec.violation(f"{PROP}:closed link: the network cannot be stepped after a link was closed ({type(e).__name__})",
+                      {"desc": desc, "closed": closed_id, "exception": repr(e)[:300]})
+        return
+    # overwrite what the closed link still holds, in place, and step again from the same values
+    lk = getattr(built, "closed_link", None)
+    if lk is None or lk.states is None:
+        return
+    for nm, arr in lk.states.items():
+        if isinstance(arr, np.ndarray) and arr.flags.writeable:
+            arr[...] = arr * 1.37 + 3.0
+    built.net.step(init_conditions=drive.np_init(built, vals, "vec1"), engine=NE(), **kw)
+    again = drive.read_next(built)
+    rec.count("closed_link_influence_checks")
+    for eid, d in base.items():
+        for nm, xs in d.items():
+            xs_ = xs if isinstance(xs, list) else [xs]
+            ys_ = again[eid][nm] if isinstance(again[eid][nm], list) else [again[eid][nm]]
+            for i, (x, y) in enumerate(zip(xs_, ys_)):
+                if x != y and not (math.isnan(x) and math.isnan(y)):
+                    rec.violation(f"{PROP}:closed link: a link that is no longer part of the network influences a next state",
+                                  {"desc": desc, "closed": closed_id, "output": [eid, nm, i], "base": x, "after_overwriting_its_leftover_state": y})
+                    return
+
+
 def perturb_compiled(M, rec, rng, g, desc, pars, case):
     A = allowed_sets(desc, pars)
     try:
@@ -299,6 +346,7 @@ def run(M, rec, tier, seed, k, n):
             c = taint(M, rec, rng, desc, pars, st)
             case = case or c
         perturb_numpy(M, rec, rng, g, desc, pars, 2 if tier == "quick" else 3)
+        closed_link_has_no_influence(M, rec, rng, g, desc, pars)
         if case is not None and it % 3 == 0:
             perturb_compiled(M, rec, rng, g, desc, pars, case)
         if it == 1:
